@@ -280,16 +280,22 @@ func checkGrowth(g GCase) error {
 			if d := time.Since(start); d < best {
 				best = d
 			}
+			if best > 200*time.Millisecond {
+				break
+			}
 		}
 		return best
 	}
-	small, large := timeOf(10), timeOf(22)
+	small := timeOf(10)
 	floor := small
 	if floor < 200*time.Microsecond {
 		floor = 200 * time.Microsecond
 	}
-	if large > 1500*time.Millisecond && large > 300*floor {
-		return fmt.Errorf("%s: scanning %q repeated 22 times takes %v, repeated 10 times %v: the running time explodes with the number of unterminated BEGIN words (does not terminate in practice for a few dozen)", OptNames[g.Opt], g.Unit, large, small)
+	// the run grows two words at a time so that an exploding scanner is reported after seconds instead of being waited for
+	for n := 12; n <= 22; n += 2 {
+		if large := timeOf(n); large > 1500*time.Millisecond && large > 300*floor {
+			return fmt.Errorf("%s: scanning %q repeated %d times takes %v, repeated 10 times %v: the running time explodes with the number of unterminated BEGIN words (does not terminate in practice for a few dozen)", OptNames[g.Opt], g.Unit, n, large, small)
+		}
 	}
 	return nil
 }
@@ -308,10 +314,10 @@ func TestCheck(t *testing.T) {
 		}
 	}
 	// "terminates": the time to scan a run of unterminated BEGIN words must not explode with its length. The scanner is
-	// timed on 10 and on 22 repetitions; a 22-run that takes seconds AND hundreds of times the 10-run is reported
+	// timed on 10 and on 12..22 repetitions; a run that takes seconds AND hundreds of times the 10-run is reported
 	// (doubling per extra word gives a factor of 4096; a linear or quadratic scanner stays below 10).
-	for _, unit := range []string{"BEGIN ", "BEGIN x; ", "begin\n"} {
-		for opt := 1; opt < 4; opt++ {
+	for _, unit := range []string{"BEGIN ", "BEGIN x; ", "begin\n", "BEGIN ATOMIC ", "BEGIN ATOMIC x; ", "BEGIN ATOMIC BEGIN ", "begin atomic\nbegin\nbegin\n"} {
+		for opt := 0; opt < 4; opt++ {
 			g := GCase{Unit: unit, Opt: opt}
 			if !ev.Each(col, "nesting-growth", g, func(g GCase) error {
 				col.Class(OptNames[g.Opt] + "/nesting-growth")
